@@ -154,8 +154,9 @@ structure GcPos (k : Consts ℝ) (c : Ctx ℝ) : Prop where
 theorem gcEvaluate_eq_prod (k : Consts ℝ) (c : Ctx ℝ) (t : Trial ℝ) (u : ℝ) (hp : GcPos k c) :
     gcEvaluate k c t u = gcEvaluateProd k c t u := by
   have hlam := deBroglie_pos k c.exchangeMass c.temperature hp.h hp.kB hp.nav hp.e hp.mass hp.T
+  have hmass : ¬ ¬ (Num.zero : ℝ) < c.exchangeMass := by simpa using hp.mass
   unfold gcEvaluate gcEvaluateProd gcLogPref gcAcceptFixed gcPref
-  rw [logDeBroglie_eq k _ _ hp.h hp.kB hp.nav hp.e hp.mass hp.T]
+  rw [if_neg hmass, logDeBroglie_eq k _ _ hp.h hp.kB hp.nav hp.e hp.mass hp.T]
   by_cases h : 0 ≤ (c.nExchange : ℤ) + c.particleDelta
   · rw [gcLogPrefactor_eq _ _ _ _ hp.V hlam h]
     have hpos : (Num.zero : ℝ) < gcPrefactor c.accessibleVolume (deBroglie k c.exchangeMass c.temperature)
